@@ -494,6 +494,9 @@ func gen(r *vh.Rand, tier string) []string {
 										if req != "N" && cfg == "N" {
 											nf = 1
 										}
+										if req != "N" && ret == "P" && cfg != "N" {
+											nf = k + 1 // NewFactory may make and fill one trial config at creation
+										}
 										for _, ff := range single(nf, hf) {
 											for _, cf := range single(nc, cerr) {
 												for _, pf := range single(np, ret == "F" && perr) {
